@@ -430,8 +430,8 @@ def main(tier, seed, replay=None):
             ev.add_tlc("MC_Writer histories %s%s depth %d" % (feats, logs, d),
                        res)
             hs = res.tagged("H")
-            if len(hs) > (6000 if q else 150000):
-                k = len(hs) // (6000 if q else 150000) + 1
+            if len(hs) > (6000 if q else 40000):
+                k = len(hs) // (6000 if q else 40000) + 1
                 hs = par.sample(hs, k, seed)
             cfgs = [200] if q else [200, 2600]
             jobs = [(h, root, cb) for h in hs for cb in cfgs]
@@ -443,7 +443,7 @@ def main(tier, seed, replay=None):
                 if viol:
                     rep.violation(viol[0], viol[1], case, size=viol[2])
         # 3. code -> spec: long random sessions judged by TLC (WriterTrace)
-        nses = 150 if q else 2000
+        nses = 150 if q else 600
         recs = par.pmap(record_session,
                         [(seed * 100003 + i, root) for i in range(nses)],
                         chunk=10)
